@@ -296,7 +296,9 @@ fn sphere<T: Tier + Dom<M = Sh>>(rep: &mut Report) {
                         }
                         // endpoints: a handful of roundings, not the accumulated tolerance of the arc clauses
                         // (below the threshold, where the arc is recovered through acos and sin, the same conditioning applies)
-                        let end_tol = if name == "slerp" && regime != "nlerp-regime" { 64.0 * T::U * (1.0 + 0.125 / whole.sin().abs().max(1e-3)) } else { 64.0 * T::U };
+                        // (next to the threshold an implementation may still take the arc route: same conditioning, capped by the
+                        // statement's own bound there)
+                        let end_tol = if name == "slerp" { (64.0 * T::U * (1.0 + 0.125 / whole.sin().abs().max(1e-3))).min(if regime == "nlerp-regime" { 1e-5 } else { f64::INFINITY }) } else { 64.0 * T::U };
                         if t == 0.0 && !(norm4(sub4(rn, af)) <= end_tol) {
                             fails.push((format!("{name}/t=0-is-a"), format!("{name}(a,b,0) = {:?}", rf)));
                         }
